@@ -145,6 +145,10 @@ class C13(TraceCheck):
                     side = [fa.strip()]
                 elif op == "linesplit":
                     side = linesplit(fa, 2 + n % 4)
+                elif op == "widthat":
+                    fa.width_at_offset(min(n, len(fa)))
+                    rec["robs"] = [views(fa)]
+                    rec["rfresh"] = [fresh_views(fa)]
                 elif op == "setitem":
                     side = [fa.setitem(min(n, max(0, len(fa) - 1)), STRPOOL[m - 1] if 1 <= m <= 4 else "z")]
                 elif op == "observe":
@@ -171,8 +175,9 @@ class C13(TraceCheck):
             except Exception as x:  # noqa
                 rec["exc"] = enc.exc_name(x)
             news = ([res] if res is not None else []) + list(side)
-            rec["robs"] = [views(x) for x in news]
-            rec["rfresh"] = [fresh_views(x) for x in news]
+            if op != "widthat":
+                rec["robs"] = [views(x) for x in news]
+                rec["rfresh"] = [fresh_views(x) for x in news]
             if res is not None:
                 rec["res"] = enc.enc_fmtstr(res)
                 if op in MODELLED and len(pool) < MAXPOOL:
